@@ -128,7 +128,7 @@ class C16(Check):
     world = 'cookie'
     level = 'exploration'
     design_ref = 'DESIGN.md 3.10'
-    runs = {'quick': 2500, 'thorough': 60000}
+    runs = {'quick': 5000, 'thorough': 120000}
     shrink_lists = (('ops',),)
     rule = ('seeded histories of 1-3 simulated clients against one SignedCookieMiddleware server: set/del/read/clear '
             'with JSON values, clock advances to just before/at/after the announced expiry, backward jumps, jitter '
